@@ -92,6 +92,8 @@ class Dump:
         self.enums = parse_enums(expanded)
         self.program = Program()
         self.program.add_dump(mir, "quantities")
+        from . import expanded as _exp
+        self.traits_assigned = _exp.assign_traits(self.program, expanded, "quantities")
 
 
 _cache = {}
@@ -185,6 +187,9 @@ def dump_crate(name, crate_dir, backend="f64", feats=None, no_default=False, kee
     else:
         d.program.add_dump(base.mir, "quantities", keep=lambda n: not n.startswith(mods))
     d.program.add_dump(out, name)
+    from . import expanded as _exp
+    _exp.assign_traits(d.program, base.expanded, "quantities")
+    d.traits_assigned = _exp.assign_traits(d.program, out2, name)
     # quantity types defined by the downstream crate itself (for native replay paths)
     own = Program()
     own.add_dump(out, name)
